@@ -430,6 +430,12 @@ func c16jobs() []c16job {
 			textRT(c, jsonCodec[meta.ExposureTime]("ExposureTime"), v, n >= 2)
 			textRT(c, jsonStructCodec[meta.ExposureTime]("ExposureTime"), v, n >= 2)
 		}
+		// 1/n for n = 2^k: exactly representable down to the smallest subnormal (n far beyond 2^64)
+		for k := 1 + part%4; k <= 149; k += 4 {
+			v := meta.ExposureTime(math.Ldexp(1, -k))
+			textRT(c, etT, v, true)
+			textRT(c, jsonCodec[meta.ExposureTime]("ExposureTime"), v, true)
+		}
 		textRT(c, jsonStructCodec[meta.ExposureTime]("ExposureTime"), meta.ExposureTime(0), true)
 		if part == 0 {
 			for _, in := range hostileInputs(r, [][]byte{[]byte("100.25mm"), []byte("2.80"), []byte("1/250"), []byte("300/100"), []byte("\"35.00mm\"")}) {
